@@ -1,4 +1,4 @@
-import SdxProofs.AnonLemmas
+import SdxProofs.CounterLemmas
 set_option linter.unusedSectionVars false
 /-!
 # C02 — Suppression decision: hard floor, normal threshold, keyed by salt + entity set
@@ -87,3 +87,190 @@ theorem C02_pass_iff_sd_zero (E : Env α) (salt : ByteArray) (p : SuppParams α)
   · intro h; exact ⟨h, by exact_mod_cast h⟩
 
 end
+
+/-! ## The counters: set semantics, invariances, saturation -/
+
+section
+variable {α : Type} [Field α] [LinearOrder α] [IsStrictOrderedRing α] [FloorRing α]
+
+/-- T02.e  (refinement to finite sets) After *any* insertion sequence the generic counter hands the rule,
+for every id column that still tracks fewer than `cap` ids, exactly `(|S|, ⨁S)` where `S` is the set of
+distinct non-null ids of that column; saturated columns are dropped. -/
+theorem C02_counter_set_semantics (cap dims : Nat) (rows : List (List UInt64)) (h : ∀ r ∈ rows, r.length = dims) :
+    ((CounterKind.generic dims cap).newEntity.addMany rows).trackers = specTrackers cap dims rows :=
+  generic_trackers_eq_spec cap dims rows h
+
+/-- the decision of the generic counter on a list of id rows -/
+noncomputable def genericDecision (E : Env α) (salt : ByteArray) (p : SuppParams α) (cap dims : Nat) (rows : List (List UInt64)) : Bool :=
+  ((CounterKind.generic dims cap).newEntity.addMany rows).isLowCount E salt p
+
+theorem genericDecision_eq (E : Env α) (salt : ByteArray) (p : SuppParams α) (cap dims : Nat)
+    (rows : List (List UInt64)) (h : ∀ r ∈ rows, r.length = dims) :
+    genericDecision E salt p cap dims rows =
+      (if (specTrackers cap dims rows).isEmpty then false else isLowCount E salt p (specTrackers cap dims rows)) := by
+  unfold genericDecision
+  obtain ⟨sets', h1, _, _⟩ := generic_counter_column cap dims rows h
+  have ht := generic_trackers_eq_spec cap dims rows h
+  rw [h1] at ht ⊢
+  simp only [ECounter.isLowCount, ht]
+
+/-- T02.e  The decision is a function of the salt, the parameters and the per-column *sets* of distinct
+non-null ids only. -/
+theorem C02_decision_depends_on_sets_only (E : Env α) (salt : ByteArray) (p : SuppParams α) (cap dims : Nat)
+    (rows rows' : List (List UInt64)) (h : ∀ r ∈ rows, r.length = dims) (h' : ∀ r ∈ rows', r.length = dims)
+    (hs : ∀ d < dims, entitySet (idColumn rows d) = entitySet (idColumn rows' d)) :
+    genericDecision E salt p cap dims rows = genericDecision E salt p cap dims rows' := by
+  rw [genericDecision_eq E salt p cap dims rows h, genericDecision_eq E salt p cap dims rows' h']
+  have : specTrackers cap dims rows = specTrackers cap dims rows' := by
+    unfold specTrackers
+    apply List.filterMap_congr
+    intro d hd
+    rw [hs d (by simpa using hd)]
+  rw [this]
+
+/-- insertion order does not matter -/
+theorem C02_order_invariant (E : Env α) (salt : ByteArray) (p : SuppParams α) (cap dims : Nat)
+    (rows rows' : List (List UInt64)) (h : ∀ r ∈ rows, r.length = dims) (hp : rows.Perm rows') :
+    genericDecision E salt p cap dims rows = genericDecision E salt p cap dims rows' := by
+  apply C02_decision_depends_on_sets_only E salt p cap dims rows rows' h (fun r hr => h r (hp.mem_iff.mpr hr))
+  intro d _
+  ext y
+  simp only [entitySet, idColumn, List.mem_toFinset, List.mem_filter, List.mem_map]
+  constructor <;> rintro ⟨⟨r, hr, rfl⟩, h0⟩
+  · exact ⟨⟨r, hp.mem_iff.mp hr, rfl⟩, h0⟩
+  · exact ⟨⟨r, hp.mem_iff.mpr hr, rfl⟩, h0⟩
+
+/-- duplicate rows do not matter -/
+theorem C02_duplicate_invariant (E : Env α) (salt : ByteArray) (p : SuppParams α) (cap dims : Nat)
+    (rows : List (List UInt64)) (r : List UInt64) (h : ∀ r ∈ rows, r.length = dims) (hr : r ∈ rows) :
+    genericDecision E salt p cap dims (rows ++ [r]) = genericDecision E salt p cap dims rows := by
+  apply C02_decision_depends_on_sets_only E salt p cap dims _ _ _ h
+  · intro d _; ext y
+    simp only [entitySet, idColumn, List.mem_toFinset, List.mem_filter, List.mem_map, List.mem_append, List.mem_singleton]
+    constructor
+    · rintro ⟨⟨r', hr' | hr', rfl⟩, h0⟩
+      · exact ⟨⟨r', hr', rfl⟩, h0⟩
+      · subst hr'; exact ⟨⟨r', hr, rfl⟩, h0⟩
+    · rintro ⟨⟨r', hr', rfl⟩, h0⟩; exact ⟨⟨r', Or.inl hr', rfl⟩, h0⟩
+  · intro r' hr'
+    simp only [List.mem_append, List.mem_singleton] at hr'
+    rcases hr' with hr' | hr'
+    · exact h r' hr'
+    · subst hr'; exact h r' hr
+
+/-- rows whose ids are all null do not matter -/
+theorem C02_null_invariant (E : Env α) (salt : ByteArray) (p : SuppParams α) (cap dims : Nat)
+    (rows : List (List UInt64)) (h : ∀ r ∈ rows, r.length = dims) :
+    genericDecision E salt p cap dims (rows ++ [List.replicate dims 0]) = genericDecision E salt p cap dims rows := by
+  apply C02_decision_depends_on_sets_only E salt p cap dims _ _ _ h
+  · intro d hd; ext y
+    simp only [entitySet, idColumn, List.mem_toFinset, List.mem_filter, List.mem_map, List.mem_append, List.mem_singleton]
+    constructor
+    · rintro ⟨⟨r', hr' | hr', rfl⟩, h0⟩
+      · exact ⟨⟨r', hr', rfl⟩, h0⟩
+      · subst hr'; simp [List.getD_eq_getElem?_getD, hd] at h0
+    · rintro ⟨⟨r', hr', rfl⟩, h0⟩; exact ⟨⟨r', Or.inl hr', rfl⟩, h0⟩
+  · intro r' hr'
+    simp only [List.mem_append, List.mem_singleton] at hr'
+    rcases hr' with hr' | hr'
+    · exact h r' hr'
+    · subst hr'; simp
+
+/-- T02.f  saturation: the counter answers "not suppressed" only if every id column either holds at
+least `cap` distinct entities or passes the rule with its exact entity count — in particular never
+below `min(low_threshold, cap)` entities. -/
+theorem C02_not_suppressed_floor (E : Env α) (salt : ByteArray) (p : SuppParams α) (cap dims : Nat)
+    (rows : List (List UInt64)) (h : ∀ r ∈ rows, r.length = dims)
+    (hns : genericDecision E salt p cap dims rows = false) :
+    ∀ d < dims, (cap ≤ (entitySet (idColumn rows d)).card) ∨ (p.lt ≤ ((entitySet (idColumn rows d)).card : Int)) := by
+  intro d hd
+  by_cases hc : (entitySet (idColumn rows d)).card < cap
+  · right
+    rw [genericDecision_eq E salt p cap dims rows h] at hns
+    have hmem : (((entitySet (idColumn rows d)).card : Int), xorSet (entitySet (idColumn rows d))) ∈ specTrackers cap dims rows := by
+      unfold specTrackers
+      rw [List.mem_filterMap]
+      exact ⟨d, by simpa using hd, by simp [hc]⟩
+    have hne : (specTrackers cap dims rows).isEmpty = false := by
+      cases hst : specTrackers cap dims rows with
+      | nil => rw [hst] at hmem; simp at hmem
+      | cons _ _ => rfl
+    rw [hne] at hns
+    simp only [Bool.false_eq_true, if_false] at hns
+    by_contra hlt
+    have := C02_floor E salt p _ _ _ hmem (not_le.mp hlt)
+    rw [this] at hns; cases hns
+  · left; omega
+
+/-- T02.f  with the cap at or above `low_threshold` (which `Synthesizer.__init__` establishes, see
+`Generated`/C01) "not suppressed" implies at least `low_threshold` distinct entities in every id column. -/
+theorem C02_saturating_counter_floor (E : Env α) (salt : ByteArray) (p : SuppParams α) (cap dims : Nat)
+    (rows : List (List UInt64)) (h : ∀ r ∈ rows, r.length = dims) (hcap : p.lt ≤ (cap : Int))
+    (hns : genericDecision E salt p cap dims rows = false) :
+    ∀ d < dims, p.lt ≤ ((entitySet (idColumn rows d)).card : Int) := by
+  intro d hd
+  rcases C02_not_suppressed_floor E salt p cap dims rows h hns d hd with h1 | h1
+  · have : (cap : Int) ≤ ((entitySet (idColumn rows d)).card : Int) := by exact_mod_cast h1
+    omega
+  · exact h1
+
+/-- T02.f  below the cap the counter *is* the rule on the exact entity counts. -/
+theorem C02_counter_agrees_below_cap (E : Env α) (salt : ByteArray) (p : SuppParams α) (cap dims : Nat)
+    (rows : List (List UInt64)) (h : ∀ r ∈ rows, r.length = dims) (hd : 0 < dims)
+    (hall : ∀ d < dims, (entitySet (idColumn rows d)).card < cap) :
+    genericDecision E salt p cap dims rows =
+      isLowCount E salt p ((List.range dims).map fun d =>
+        (((entitySet (idColumn rows d)).card : Int), xorSet (entitySet (idColumn rows d)))) := by
+  rw [genericDecision_eq E salt p cap dims rows h]
+  have hst : specTrackers cap dims rows = (List.range dims).map fun d =>
+      (((entitySet (idColumn rows d)).card : Int), xorSet (entitySet (idColumn rows d))) := by
+    unfold specTrackers
+    rw [← List.filterMap_eq_map]
+    apply List.filterMap_congr
+    intro d hd'
+    simp [hall d (by simpa using hd')]
+  rw [hst]
+  have : ((List.range dims).map fun d =>
+      (((entitySet (idColumn rows d)).card : Int), xorSet (entitySet (idColumn rows d)))).isEmpty = false := by
+    cases dims with
+    | zero => omega
+    | succ n => simp [List.range_succ]
+  rw [this]; simp
+
+/-- Non-vacuity: three rows with two id columns satisfy the well-formedness hypothesis. -/
+example : ∀ r ∈ ([[1, 7], [2, 0], [1, 7]] : List (List UInt64)), r.length = 2 := by decide
+
+end
+
+/-! ## The unique-id counter -/
+
+theorem unique_addMany (c : Nat) (s : UInt64) (rows : List (List UInt64)) (h : ∀ r ∈ rows, r.length = 1) :
+    (ECounter.unique c s).addMany rows =
+      .unique (c + ((idColumn rows 0).filter (· ≠ 0)).length) (((idColumn rows 0).filter (· ≠ 0)).foldl (· ^^^ ·) s) := by
+  induction rows generalizing c s with
+  | nil => simp [ECounter.addMany, idColumn]
+  | cons r rows ih =>
+    have hr := h r (by simp)
+    obtain ⟨pid, rfl⟩ : ∃ pid, r = [pid] := by
+      match r, hr with
+      | [x], _ => exact ⟨x, rfl⟩
+    have ih' := fun c s => ih c s (fun r' hr' => h r' (by simp [hr']))
+    simp only [ECounter.addMany, List.foldl_cons, ECounter.add] at ih' ⊢
+    by_cases h0 : pid = 0
+    · subst h0; simp [idColumn, ih']
+    · simp [idColumn, h0, ih', List.filter_cons]; omega
+
+/-- T02.e for `UniquePidCounter`, under its stated precondition (non-null ids pairwise distinct):
+the tracker is `(|S|, ⨁S)` — the same function of the entity set as for the generic counter. -/
+theorem C02_unique_counter_set_semantics (rows : List (List UInt64)) (h : ∀ r ∈ rows, r.length = 1)
+    (hdistinct : ((idColumn rows 0).filter (· ≠ 0)).Nodup) :
+    (CounterKind.unique.newEntity.addMany rows).trackers =
+      [(((entitySet (idColumn rows 0)).card : Int), xorSet (entitySet (idColumn rows 0)))] := by
+  simp only [CounterKind.newEntity]
+  rw [unique_addMany 0 0 rows h]
+  simp only [ECounter.trackers, Nat.zero_add]
+  have h1 : (entitySet (idColumn rows 0)).card = ((idColumn rows 0).filter (· ≠ 0)).length := by
+    unfold entitySet; exact List.toFinset_card_of_nodup hdistinct
+  have h2 : xorSet (entitySet (idColumn rows 0)) = ((idColumn rows 0).filter (· ≠ 0)).foldl (· ^^^ ·) 0 := by
+    unfold entitySet; rw [← xorAll_eq_xorSet hdistinct]; rfl
+  rw [h1, h2]
